@@ -96,7 +96,7 @@ fn dispatch(id: &str, quick: bool, seed: u64) -> Option<(Outcome, u64)> {
             "C06" => Some(("midi_stream", 80_000, 600)),
             "C07" | "C08" | "C09" | "C19" => Some(("quant_ops", 100_000, 1200)),
             "C13" => Some(("glide_ops", 30_000, 400)),
-            "C15" | "C16" => Some(("ribbon_ops", 5_000, 200)),
+            "C15" | "C16" => Some(("ribbon_ops", 2_500, 200)),
             "C17" => Some(("api_any", 50_000, 1500)),
             _ => None,
         };
